@@ -6,6 +6,11 @@
 
 #[macro_use]
 mod engine;
+#[cfg(feature = "guard-alloc")]
+mod guard;
+#[cfg(feature = "guard-alloc")]
+#[global_allocator]
+static GLOBAL: guard::GuardAlloc = guard::GuardAlloc;
 #[macro_use]
 mod gen;
 mod c01;
